@@ -84,7 +84,7 @@ func runCborCase(c Case) (o outcome) {
 	cls := cborValidClass(verr)
 	acc := uerr == nil && !g.panicked
 	o.g = g
-	o.term = fmt.Sprintf("(CCbor %s, OCbor %d %v)", cb(data), cls, acc)
+	o.term = fmt.Sprintf("(CCbor %s, OCbor %d (Some %v))", cb(data), cls, acc)
 	o.class = fmt.Sprintf("valid%d/unmarshal-%v", cls, acc)
 	o.ok = acc
 	if v := g.violation(); v != "" {
